@@ -9,6 +9,7 @@ package main
 // like GenericCache does) or the real GenericCache over the in-memory persistor (mode c1).
 
 import (
+	"errors"
 	"crypto/md5"
 	"encoding/hex"
 	"fmt"
@@ -213,6 +214,61 @@ func (e *c20Env) vref(t string) *string {
 	return nil
 }
 
+// c20Faulty builds the body reader and checksum input of a put/append: flt 0 plain, 1 a correct
+// Content-MD5 (ETag) is sent, 2 a wrong ETag, 3 a wrong SHA-256, 4 the reader fails half way.
+type c20FailingReader struct {
+	data []byte
+	pos  int
+}
+
+func (r *c20FailingReader) Read(p []byte) (int, error) {
+	if r.pos >= len(r.data) {
+		return 0, errors.New("c20 reader failure")
+	}
+	n := copy(p, r.data[r.pos:])
+	r.pos += n
+	return n, nil
+}
+
+func c20Faulty(cid, flt int) (io.Reader, *storage.ChecksumInput) {
+	body := c20Body(cid)
+	switch flt {
+	case 1:
+		return strings.NewReader(string(body)), &storage.ChecksumInput{ETag: c20ETag("s" + strconv.Itoa(cid))}
+	case 2:
+		wrong := c20ETagQuote("00000000000000000000000000000000")
+		return strings.NewReader(string(body)), &storage.ChecksumInput{ETag: &wrong}
+	case 3:
+		wrong := "AAAAAAAAAAAAAAAAAAAAAAAAAAAAAAAAAAAAAAAAAAA="
+		return strings.NewReader(string(body)), &storage.ChecksumInput{ChecksumSHA256: &wrong}
+	case 4:
+		return &c20FailingReader{data: body[:len(body)/2]}, nil
+	}
+	return strings.NewReader(string(body)), nil
+}
+
+// c20Range: the byte range a single-range GetObject must return, written from the S3 range rules
+// (suffix ranges, end clamped to the size); the harness only calls it after the call succeeded.
+func c20Range(size int64, br storage.ByteRange) (int64, int64) {
+	switch {
+	case br.Start == nil && br.End == nil:
+		return 0, size
+	case br.Start == nil:
+		n := *br.End
+		if n > size {
+			n = size
+		}
+		return size - n, n
+	case br.End == nil:
+		return *br.Start, size - *br.Start
+	}
+	end := *br.End
+	if end > size {
+		end = size
+	}
+	return *br.Start, end - *br.Start
+}
+
 func c20Sum(b []byte) string { s := md5.Sum(b); return hex.EncodeToString(s[:]) }
 
 // record the version the inner storage currently exposes at (b,k) as committed
@@ -274,8 +330,10 @@ func (e *c20Env) op(f []string) string {
 	n := func(i int) int { return c20Atoi(arg(i)) }
 	st := e.mw
 	switch arg(0) {
-	case "P", "A", "D", "X", "T", "U", "R", "MC", "H", "G", "GO", "V":
-		if n(1) != 0 && n(1) != 1 {
+	case "P", "A", "D", "X", "T", "U", "R", "MC", "H", "G", "GO", "V", "GR":
+		// bucket 2 does not exist: PutObject is really called on it, every other call is answered
+		// NoSuchBucket without a call (same rule as the model)
+		if n(1) != 0 && n(1) != 1 && !(arg(0) == "P" && n(1) == 2) {
 			if arg(0) == "GO" {
 				e.handles = append(e.handles, &c20Handle{})
 			}
@@ -297,11 +355,14 @@ func (e *c20Env) op(f []string) string {
 		default:
 			opts.IfMatchETag = c20ETag(c)
 		}
-		pres, err := st.PutObject(c20Ctx, e.B(b), c20K(k), c20CType(n(4)), strings.NewReader(string(c20Body(cid))), nil, opts)
+		data, ck := c20Faulty(cid, n(9))
+		pres, err := st.PutObject(c20Ctx, e.B(b), c20K(k), c20CType(n(4)), data, ck, opts)
 		if err == nil {
 			e.noteVid(pres.VersionID)
 		}
-		e.recordCommitted(b, k)
+		if b != 2 {
+			e.recordCommitted(b, k)
+		}
 		return c20Err(err)
 	case "A":
 		b, k, cid := n(1), n(2), n(3)
@@ -310,7 +371,11 @@ func (e *c20Env) op(f []string) string {
 			off := int64(n(4))
 			opts = &storage.AppendObjectOptions{WriteOffset: &off}
 		}
-		_, err := st.AppendObject(c20Ctx, e.B(b), c20K(k), strings.NewReader(string(c20Body(cid))), nil, opts)
+		adata, ack := c20Faulty(cid, n(5))
+		if n(5) >= 2 && opts != nil {
+			return "BadOp"
+		}
+		_, err := st.AppendObject(c20Ctx, e.B(b), c20K(k), adata, ack, opts)
 		if err == nil {
 			// AppendObjectResult carries no version id: ask the inner storage directly
 			if o, herr := e.inner.HeadObject(c20Ctx, e.B(b), c20K(k), nil); herr == nil {
@@ -530,6 +595,56 @@ func (e *c20Env) op(f []string) string {
 		}
 		e.checkCommitted(b, k, o, body)
 		return "ok=" + c20Desc(o, body, true)
+	case "GR":
+		// one byte range, optionally of a version: never served from the cache
+		b, k := n(1), n(2)
+		if len(f) != 6 {
+			return "BadOp"
+		}
+		var br storage.ByteRange
+		if arg(3) != "N" {
+			v := int64(n(3))
+			br.Start = &v
+		}
+		if arg(4) != "N" {
+			v := int64(n(4))
+			br.End = &v
+		}
+		var opts *storage.GetObjectOptions
+		if v := e.vref(arg(5)); v != nil {
+			opts = &storage.GetObjectOptions{VersionID: v}
+		}
+		io_, irs, ierr := e.inner.GetObject(c20Ctx, e.B(b), c20K(k), []storage.ByteRange{br}, opts)
+		var ibody []byte
+		if ierr == nil {
+			ibody, _ = c20ReadAll(irs)
+		}
+		o, rs, err := st.GetObject(c20Ctx, e.B(b), c20K(k), []storage.ByteRange{br}, opts)
+		if c20Err(ierr) != c20Err(err) {
+			e.fail("range-status", "mw="+c20Err(err)+" inner="+c20Err(ierr))
+		} else if err == nil {
+			e.compare("range", o, io_)
+		}
+		if err != nil {
+			return c20Err(err)
+		}
+		body, rerr := c20ReadAll(rs)
+		if rerr != nil {
+			return "ReadErr"
+		}
+		if ierr == nil && string(body) != string(ibody) {
+			e.fail("range-body-differs", fmt.Sprintf("mw=%d bytes inner=%d bytes", len(body), len(ibody)))
+		}
+		// independent range arithmetic on the full body of the addressed object
+		st0, ln := c20Range(o.Size, br)
+		_, frs, ferr := e.inner.GetObject(c20Ctx, e.B(b), c20K(k), nil, opts)
+		if ferr == nil {
+			full, _ := c20ReadAll(frs)
+			if st0 < 0 || st0+ln > int64(len(full)) || string(full[st0:st0+ln]) != string(body) {
+				e.fail("range-bytes", fmt.Sprintf("range [%d,+%d) of a %d byte object: got %d bytes %s", st0, ln, len(full), len(body), c20DecodeBody(body)))
+			}
+		}
+		return "ok=" + c20Desc(o, nil, false) + ":r" + strconv.FormatInt(st0, 10) + "." + strconv.FormatInt(ln, 10)
 	case "GF", "GX":
 		hi := n(1)
 		if hi < 0 || hi >= len(e.handles) || !e.handles[hi].live {
@@ -789,8 +904,21 @@ func (g *c20Gen) mayAlloc(b int) {
 	}
 }
 func (g *c20Gen) add(format string, a ...interface{}) { g.ops = append(g.ops, fmt.Sprintf(format, a...)) }
+func (g *c20Gen) rng() (string, string) {
+	st := []string{"N", "N", "0", "1", "5", "60", "64", "100", "4095"}[g.r.Intn(9)]
+	en := []string{"N", "N", "0", "1", "3", "7", "64", "999", "4096"}[g.r.Intn(9)]
+	return st, en
+}
+func (g *c20Gen) ranged(b, k int, vr string) {
+	st, en := g.rng()
+	g.add("GR,%d,%d,%s,%s,%s", b, k, st, en, vr)
+}
 func (g *c20Gen) read(b, k int) {
 	x := g.r.Intn(100)
+	if g.r.Chance(10) {
+		g.ranged(b, k, g.vr(25))
+		return
+	}
 	switch {
 	case x < 40:
 		g.add("H,%d,%d,%s,%s,%s", b, k, g.cond(15), g.cond(12), g.vr(12))
@@ -867,6 +995,130 @@ func (g *c20Gen) scenario() {
 	g.add("H,%d,%d,N,N,N", b, k)
 }
 
+// small bodies (under the cache threshold) that differ from each other
+func (g *c20Gen) smallCid(not int) int {
+	for {
+		c := []int{1, 2, 3, 4, 5, 6, 9}[g.r.Intn(7)]
+		if c != not {
+			return c
+		}
+	}
+}
+
+// scripted opening: a key is written, its head and/or body entry warmed, then writes follow that the
+// inner storage rejects only after (or while) consuming the whole body; afterwards plain, ranged and
+// versioned reads
+func (g *c20Gen) rejectedScenario() {
+	b := g.r.Intn(2)
+	k := g.r.Intn(3)
+	c0 := g.smallCid(-1)
+	g.add("P,%d,%d,%d,%d,%d,%d,%d,N", b, k, c0, g.small(), g.small(), g.small(), g.r.Intn(4))
+	g.mayAlloc(b)
+	switch g.r.Intn(4) { // which entries are warm: put warms both; otherwise re-warm selectively
+	case 0:
+	case 1:
+		g.add("T,%d,%d,%d,N", b, k, g.small())
+		g.add("H,%d,%d,N,N,N", b, k)
+	case 2:
+		g.add("T,%d,%d,%d,N", b, k, g.small())
+		g.add("G,%d,%d,N,N,N", b, k)
+	default:
+		g.add("T,%d,%d,%d,N", b, k, g.small())
+	}
+	for i := 0; i <= g.r.Intn(3); i++ {
+		c1 := g.smallCid(c0)
+		switch g.r.Intn(9) {
+		case 0, 1:
+			g.add("P,%d,%d,%d,%d,%d,%d,%d,S,0", b, k, c1, g.small(), g.small(), g.small(), g.r.Intn(4))
+		case 2:
+			g.add("P,%d,%d,%d,0,0,0,0,s%d,%d", b, k, c1, c1, g.r.Intn(2))
+		case 3, 4:
+			g.add("P,%d,%d,%d,%d,%d,%d,%d,N,%d", b, k, c1, g.small(), g.small(), g.small(), g.r.Intn(4), 2+g.r.Intn(2))
+		case 5:
+			g.add("P,%d,%d,%d,0,0,0,0,N,4", b, k, c1)
+		case 6:
+			g.add("A,%d,%d,%d,N,%d", b, k, c1, 2+g.r.Intn(3))
+		case 7:
+			g.add("C,%d,%d,%d,%d,0,0,0,0,0,0", b, (k+1)%3, b, k) // source usually missing: rejected copy onto the warm key
+		default:
+			g.add("P,2,%d,%d,0,0,0,0,N,%d", k, c1, []int{0, 0, 2, 4}[g.r.Intn(4)])
+		}
+		if g.r.Chance(50) {
+			g.read(b, k)
+		}
+	}
+	g.add("G,%d,%d,N,N,N", b, k)
+	g.add("H,%d,%d,N,N,N", b, k)
+	g.ranged(b, k, "N")
+	if g.vers {
+		g.add("G,%d,%d,N,N,%s", b, k, g.vr(100))
+	}
+}
+
+// scripted opening: the null version is not the current one (written while unversioned or Suspended,
+// then Enabled + a newer put / copy / multipart object), or it is current while older id-carrying
+// versions exist; reads by "null" interleaved with key-only reads that warm the cache
+func (g *c20Gen) nullScenario() {
+	b := 0
+	k := g.r.Intn(3)
+	if g.r.Chance(40) {
+		g.add("V,0,S")
+		g.vstate[0] = 2
+	}
+	g.add("P,0,%d,%d,%d,%d,%d,%d,N", k, g.smallCid(-1), g.small(), g.small(), g.small(), g.r.Intn(4))
+	if g.r.Chance(50) {
+		g.add("G,0,%d,N,N,N", k)
+	}
+	g.add("V,0,E")
+	g.vstate[0] = 1
+	switch g.r.Intn(4) {
+	case 0, 1:
+		g.add("P,0,%d,%d,%d,%d,%d,%d,N", k, g.smallCid(-1), g.small(), g.small(), g.small(), g.r.Intn(4))
+		g.vidEst++
+	case 2:
+		g.add("P,0,%d,%d,0,0,0,0,N", (k+1)%3, g.smallCid(-1))
+		g.vidEst++
+		g.add("C,0,%d,0,%d,0,0,0,0,0,0", (k+1)%3, k)
+		g.vidEst++
+	default:
+		u := g.uploads
+		g.uploads++
+		g.add("MC,0,%d,%d,%d,%d,%d", k, g.small(), g.small(), g.small(), g.r.Intn(4))
+		g.add("MP,%d,1,%d", u, g.smallCid(-1))
+		g.add("MF,%d", u)
+		g.vidEst++
+	}
+	reads := func() {
+		for i := 0; i < 2+g.r.Intn(3); i++ {
+			switch g.r.Intn(6) {
+			case 0:
+				g.add("H,0,%d,N,N,n", k)
+			case 1:
+				g.add("G,0,%d,N,N,n", k)
+			case 2:
+				g.ranged(0, k, "n")
+			case 3:
+				g.add("G,0,%d,N,N,N", k)
+			case 4:
+				g.add("H,0,%d,N,N,N", k)
+			default:
+				g.add("G,0,%d,N,N,v%d", k, max(g.vidEst-1, 0))
+			}
+		}
+		g.add("G,0,%d,N,N,N", k)
+		g.add("H,0,%d,N,N,N", k)
+	}
+	reads()
+	if g.r.Chance(55) {
+		// the reverse: null becomes current again while the id-carrying versions stay
+		g.add("V,0,S")
+		g.vstate[0] = 2
+		g.add("P,0,%d,%d,0,0,0,0,N", k, g.smallCid(-1))
+		reads()
+	}
+	_ = b
+}
+
 func (g *c20Gen) step() {
 	b, k := g.bk()
 	if g.vers && g.r.Chance(4) {
@@ -884,14 +1136,28 @@ func (g *c20Gen) step() {
 				c = g.cond(100)
 			}
 		}
-		g.add("P,%d,%d,%d,%d,%d,%d,%d,%s", b, k, g.cid(), g.small(), g.small(), g.small(), g.r.Intn(4), c)
-		g.mayAlloc(b)
+		flt := 0
+		if g.r.Chance(14) {
+			flt = 1 + g.r.Intn(4)
+		}
+		pb := b
+		if g.r.Chance(2) {
+			pb = 2 // a bucket that does not exist
+		}
+		g.add("P,%d,%d,%d,%d,%d,%d,%d,%s,%d", pb, k, g.cid(), g.small(), g.small(), g.small(), g.r.Intn(4), c, flt)
+		if flt < 2 && pb != 2 {
+			g.mayAlloc(b)
+		}
 	case x < 30:
 		off := "N"
 		if g.r.Chance(35) {
 			off = strconv.Itoa([]int{0, 7, 64, 8, 71, 14, 1}[g.r.Intn(7)])
 		}
-		g.add("A,%d,%d,%d,%s", b, k, g.cid(), off)
+		if off == "N" && g.r.Chance(15) {
+			g.add("A,%d,%d,%d,N,%d", b, k, g.cid(), 1+g.r.Intn(4))
+		} else {
+			g.add("A,%d,%d,%d,%s", b, k, g.cid(), off)
+		}
 		g.mayAlloc(b)
 	case x < 38:
 		sb, sk := g.bk()
@@ -1003,7 +1269,12 @@ func (c20) Gen(r *Rng, tier string, n int) []string {
 		}
 		// two thirds of the histories use version ids, versioning toggles and a scripted opening
 		g.vers = g.r.Chance(66)
-		if g.vers && g.r.Chance(60) {
+		switch y := g.r.Intn(100); {
+		case y < 28:
+			g.rejectedScenario()
+		case y < 46 && g.vers:
+			g.nullScenario()
+		case y < 80 && g.vers:
 			g.scenario()
 		}
 		steps := 6 + g.r.Intn(22)
